@@ -231,6 +231,10 @@ def shard_main(a):
             except Exception:  # pragma: no cover
                 FlakyFailure = Flaky
 
+            from . import core as _core
+
+            _core.N_STRATA = max(1, int(a.get("n_groups", a["nshards"])))
+            _core.STRATUM = (int(a.get("seed_group", a["shard"])) + int(a["seed"])) % _core.N_STRATA
             strat = mod.strategy(a["tier"], excl)
             for rnd in range(MAX_ROUNDS):
                 state = {"target": None, "last": None}
@@ -347,6 +351,9 @@ def run_property(prop, tier="quick", seed=1, shards=None, examples=None, replay=
             )
         )
     results = []
+    n_groups = len({j["seed_group"] for j in jobs})
+    for j in jobs:
+        j["n_groups"] = n_groups
     if nshards == 1:
         results = [shard_main(jobs[0])]
     else:
